@@ -37,6 +37,13 @@ def run(out, tier, seed):
         back = report.deserialize(report.serialize(r))
         if back != r:
             failures.append({"obligation": "C17/report-roundtrip", "inputs": repr(r), "observed": repr(back), "class": "report"})
+    # framing: what the REAL sending functions put on a (fake) socket, fed to the REAL Listener._recv_one through a fake poller
+    try:
+        c_f, f_f = framing_cases(insts)
+        cases += c_f
+        failures += f_f
+    except Exception as e:  # noqa
+        out.notes.append(f"framing stand-in skipped: {e!r}")
     # gateway JSON + JobInstance
     try:
         cases_g, fails_g, samp = gateway_cases()
@@ -45,8 +52,82 @@ def run(out, tier, seed):
         samples += samp
     except Exception as e:  # noqa
         out.notes.append(f"gateway stand-in skipped: {e!r}")
-    out.add_bounded("pickle/JSON encodings", "enumerated instances", "every executor message class x 6 id combinations; 3 controller reports; "
+    out.add_bounded("pickle/JSON encodings", "enumerated instances", "every executor message class x 6 id combinations (serde round trip, and framed by the real send / callback / send_data then decoded by the real _recv_one); 3 controller reports; "
                     "gateway requests/responses and JobInstance JSON for 4 job shapes", cases, cases, time.time() - t0, samples, failures)
+
+
+def framing_cases(insts):
+    """bounded stand-in of the C17 framing harnesses: send / send_data / callback -> frames -> _recv_one"""
+    import cascade.executor.comms as comms
+    import cascade.executor.msg as msg
+    cases, failures = 0, []
+    wire = []
+
+    class Sock:
+        def send_multipart(self, frames):
+            wire.append(list(frames))
+
+        def send(self, b):
+            wire.append([b])
+
+        def recv_multipart(self):
+            return wire.pop(0)
+
+        def set(self, *a):
+            pass
+
+        def connect(self, *a):
+            pass
+
+    class Poller:
+        def poll(self, t=None):
+            return [(Sock(), 1)] if wire else []
+
+    saved = comms.get_socket
+    comms.get_socket = lambda address: Sock()
+    try:
+        def listener():
+            li = object.__new__(comms.Listener)
+            li.address, li.socket, li.poller, li.acked = "a", Sock(), Poller(), set()
+            return li
+
+        def expect(kind, m, got):
+            if got != m:
+                failures.append({"obligation": f"C17/framing-{kind}", "inputs": repr(m), "observed": repr(got), "class": "framing"})
+        for i, m in enumerate(insts):
+            wire.clear()
+            cases += 1
+            sender = comms.ReliableSender("tcp://me:1", 100)
+            sender.hosts["h"] = (Sock(), "x")
+            sender.idx = i * 7
+            try:
+                if not isinstance(m, msg.Syn):  # Syn is the envelope of the acknowledged layer, never its payload
+                    sender.send("h", m)
+                    wire[:] = wire[:1]
+                    expect("reliable-send", m, listener()._recv_one(0))
+            except Exception as e:  # noqa
+                failures.append({"obligation": "C17/framing-reliable-send", "inputs": repr(m), "observed": repr(e), "class": "framing"})
+            if not isinstance(m, msg.Syn):
+                wire.clear()
+                cases += 1
+                try:
+                    comms.callback("x", m)
+                    wire[:] = wire[-1:]
+                    expect("local-callback", m, listener()._recv_one(0))
+                except Exception as e:  # noqa
+                    failures.append({"obligation": "C17/framing-local-callback", "inputs": repr(m), "observed": repr(e), "class": "framing"})
+            if isinstance(m, msg.DatasetTransmitPayload):
+                wire.clear()
+                cases += 1
+                try:
+                    comms.send_data("x", m, msg.Syn(i, "tcp://me:1"))
+                    wire[:] = wire[-1:]
+                    expect("send-data", m, listener()._recv_one(0))
+                except Exception as e:  # noqa
+                    failures.append({"obligation": "C17/framing-send-data", "inputs": repr(m), "observed": repr(e), "class": "framing"})
+    finally:
+        comms.get_socket = saved
+    return cases, failures
 
 
 def gateway_cases():
